@@ -26,10 +26,28 @@ package environment
 
 import (
 	"errors"
+	"fmt"
+	"strings"
 
 	"github.com/AliceO2Group/Control/core/protos"
 	"github.com/AliceO2Group/Control/core/task"
+	"github.com/AliceO2Group/Control/core/workflow"
 )
+
+// criticalTasksInError returns an error if a critical task of the environment's workflow is in ERROR.
+// Such a task is not active any more, so it was not among the tasks the transition commanded: the
+// transition cannot report the destination state on its behalf.
+func criticalTasksInError(env *Environment, transition string) error {
+	wf := env.Workflow()
+	if wf == nil {
+		return nil
+	}
+	lost := workflow.GetCriticalTasksInError(wf)
+	if len(lost) == 0 {
+		return nil
+	}
+	return fmt.Errorf("%s could not complete: critical task(s) in ERROR: %s", transition, strings.Join(lost.GetTaskIds(), ", "))
+}
 
 type Transition interface {
 	eventName() string
